@@ -203,8 +203,19 @@ def _abs(eng, node, x):
     return z3.If(x >= 0, x, -x)
 
 
+@reg("builtins.str.strip")
+def _str_strip(eng, node, x, chars=None):
+    if isinstance(x, str):
+        return x.strip(chars) if chars is None or isinstance(chars, str) else x
+    if isinstance(x, Rec) and x.cls == "NumToken":
+        return x            # int() ignores surrounding blanks: the token stands for the same number
+    raise Unsupported("str.strip on this value")
+
+
 @reg("builtins.int")
 def _int(eng, node, x=0):
+    if isinstance(x, Rec) and x.cls == "NumToken":
+        return x.fields["value"]      # a piece of text modelled by the integer it denotes
     if isinstance(x, bool):
         return int(x)
     if isinstance(x, int):
